@@ -115,22 +115,16 @@ Print Assumptions C30_reachable_states_are_invariant.
 
 (* ---- non-vacuity ------------------------------------------------------------------------------ *)
 
-Definition ex_limit (w : Z) : option Z := if w =? 0 then Some 1 else if w =? 1 then Some 2 else None.
-
-(* instance 0 (N=1): run 1 admitted, runs 2 and 3 queue; instance 1 (N=2) admits 4 and 5 meanwhile;
-   1 finishes -> permit handed to 2; 2 is cancelled before it resumes -> permit goes on to 3 *)
-Definition ex_sched : list act :=
-  [AStart 1 0; AStart 2 0; AStart 3 0; ARun 1; ARun 2; ARun 3; AEnter 1;
-   AStart 4 1; AStart 5 1; ARun 4; ARun 5; AEnter 4; AEnter 5;
-   AExit 1; AFinish 1; ACancel 2; ARun 2; ARun 3; AEnter 3].
-
+(* ex_limit: instance 0 has N=1, instance 1 has N=2.  ex_sched: instance 0: run 1 admitted, runs 2 and 3
+   queue; instance 1 admits 4 and 5 meanwhile; 1 finishes -> permit handed to 2; 2 is cancelled before it
+   resumes -> the permit goes on to 3 *)
 Example C30_example_run :
   let s := exec ex_limit init ex_sched in
   executing 0 s = 1%nat /\ executing 1 s = 2%nat /\
   alookup 2 (runs s) = Some (mkRun 0 PDone true) /\
   alookup 3 (runs s) = Some (mkRun 0 (PHolding 1) false) /\
   alookup 0 (sems s) = Some (mkSem 0 []).
-Proof. vm_compute. repeat split; reflexivity. Qed.
+Proof. exact example_run. Qed.
 Print Assumptions C30_example_run.
 
 (* the hypotheses of the progress theorem are satisfiable: after the first six actions run 3 waits
@@ -139,16 +133,12 @@ Example C30_example_waiting_rank :
   W 0 3 2 (exec ex_limit init (firstn 6 ex_sched)) /\
   count_releases ex_limit (exec ex_limit init (firstn 6 ex_sched))
     [AEnter 1; AExit 1; AFinish 1; ARun 2; AEnter 2; AExit 2; AFinish 2] 0 = 2%nat.
-Proof.
-  split; [|vm_compute; reflexivity].
-  exists (mkRun 0 PWaiting false), (mkSem 0 [(2, FPending); (3, FPending)]).
-  vm_compute. repeat split; reflexivity.
-Qed.
+Proof. exact example_waiting_rank. Qed.
 Print Assumptions C30_example_waiting_rank.
 
 (* a state with a pending waiter and a hand-off in flight (hypotheses of C30_no_lost_wakeup) *)
 Example C30_example_handoff_in_flight :
   let s := exec ex_limit init (firstn 15 ex_sched) in
   alookup 0 (sems s) = Some (mkSem 0 [(2, FWoken); (3, FPending)]) /\ holders 0 s = 0%nat.
-Proof. vm_compute. split; reflexivity. Qed.
+Proof. exact example_handoff_in_flight. Qed.
 Print Assumptions C30_example_handoff_in_flight.
